@@ -20,9 +20,33 @@ KEYS = ["src", "src/models", "tests", "/", "lib", "docs", "src/models/deep", "sr
 PATTERNS = [r".*\.py$", r"test_.*", r".*_model\.py$", r"^(?!src/).*\.ts$", r".*\.(md|txt)$", r"__init__\.py$", r"tmp", r"\.yaml$", r"^src/", r".*",
             # anchors that belong to one alternative only, anchors inside groups, an end anchor first, inline flags, a lazy prefix
             r"^docs/|\.md$", r"^tests/|_model\.py$|^top", r"(^lib/|models/)", r"\.ts$|^src2/", r"(?s)^.*deep.*$", r"^$|helper", r".*?models/.*?\.py", r"\Asrc/|file\.py\Z"]
-PATHS = ["src/a.py", "src/models/user_model.py", "src/models/x.py", "src/models/deep/d_model.py", "src2/b.py", "srcfile.py", "tests/test_a.py",
+PATHS = ["scripts/build", "scripts/deploy", "lib/dist", "src/a.py", "src/models/user_model.py", "src/models/x.py", "src/models/deep/d_model.py", "src2/b.py", "srcfile.py", "tests/test_a.py",
          "tests/helper.py", "lib/c.ts", "README.md", "docs/guide.md", "src/a.ts", "top.py", "src/models/__init__.py", "notes.TMP", "lib/TMPfile.py",
          ".thailint.yaml"]
+# a second rule set, used first on the same project directory in the same process: what it decided must not stick
+PRIME = {"file-placement": {"directories": {"/": {"deny": [{"pattern": r".*", "reason": "PRIME"}]}, "src": {"allow": [r"^$"]}}}}
+
+
+def _rel(fp, proj):
+    q = Path(fp)
+    try:
+        return q.resolve().relative_to(Path(proj).resolve()).as_posix() if q.is_absolute() else q.as_posix()
+    except ValueError:
+        return q.as_posix()
+
+
+def library_after_other_rules(proj, root, idx):
+    """the same rule set through the library, after another Linter object judged the same directory by other rules"""
+    import yaml
+    from src.api import Linter
+    prime = Path(root) / f"prime{idx}.yaml"
+    prime.write_text(yaml.safe_dump(PRIME))
+    try:
+        Linter(config_file=prime, project_root=proj).lint(proj, rules=["file-placement"])
+        vs = Linter(config_file=proj / ".thailint.yaml", project_root=proj).lint(proj, rules=["file-placement"])
+        return sorted([_rel(v.file_path, proj), v.message] for v in vs)
+    finally:
+        prime.unlink(missing_ok=True)
 
 
 def gen_config(rng):
@@ -86,6 +110,7 @@ def impl_case(args):
             if p != ".thailint.yaml":
                 f.write_text("x = 1\n")
         (proj / ".thailint.yaml").write_text(yaml.safe_dump(ycfg, sort_keys=False))
+        lib_after = library_after_other_rules(proj, root, idx) if idx % 3 == 0 else None   # before anything else touched this directory
         code, stdout = core.run_cli(["file-placement", "--format", "json", "."], cwd=proj)
         vs = core.violations_json(stdout)
         if vs is None:
@@ -93,6 +118,8 @@ def impl_case(args):
         else:
             out["vs"] = sorted([v["file_path"], v["message"]] for v in vs)
             out["exit"] = code
+            if lib_after is not None:
+                out["lib_after"] = lib_after
     except Exception as exc:  # noqa: BLE001
         out["errors"].append(f"{type(exc).__name__}: {exc}")
     finally:
@@ -132,8 +159,9 @@ def message_of(v, rel):
 def run(tier: str, seed: int, st: core.ProofStatus) -> core.Result:
     res = core.Result()
     res.rule = ("seeded rule sets: 1-4 directory keys out of 8 (nested keys, '/', a key that is a string prefix of another directory name), "
-                "allow / deny / both with 1-3 of 10 regexes, optional global_deny and global_patterns, judged on all 17 paths of a fixed "
-                "tree (incl. src2/, srcfile.py, upper-case names, the config file itself); 4 invalid-pattern placements; non-trivial = a "
+                "allow / deny / both with 1-3 of 28 regexes, optional global_deny and global_patterns, judged on all 20 paths of a fixed "
+                "tree (incl. src2/, srcfile.py, upper-case names, extension-less files named like build directories, the config file itself); every third rule set "
+                "also through the library after another Linter object judged the same directory by other rules; 4 invalid-pattern placements; non-trivial = a "
                 "rule set under which some path is reported and some is not")
     rng = core.sub_rng(seed, PROP, tier)
     n = 600 if tier == "quick" else 4000
@@ -167,7 +195,7 @@ def run(tier: str, seed: int, st: core.ProofStatus) -> core.Result:
         exp.sort()
         got_rep = sorted({f for f, _ in im["vs"]})
         model_rep = sorted({f for f, _ in exp})
-        res.bump("reported_paths", min(len(got_rep), 17))
+        res.bump("reported_paths", min(len(got_rep), len(PATHS)))
         if 0 < len(got_rep) < len(PATHS):
             res.nontrivial.add(core.canon(case))
         problems, fails = [], False
@@ -180,6 +208,12 @@ def run(tier: str, seed: int, st: core.ProofStatus) -> core.Result:
                     fails = True
         if model_rep != sorted(spec_rep):
             problems.append(f"model verdicts differ from the specification on {sorted(set(model_rep) ^ set(spec_rep))[:4]}")
+        if "lib_after" in im:
+            res.bump("library_after_other_rules", "same" if im["lib_after"] == im["vs"] else "differs")
+            if im["lib_after"] != im["vs"]:
+                problems.append(f"a second Linter object on the same directory, after one with other rules: {[v for v in im['lib_after'] if v not in im['vs']][:3]} / "
+                                f"missing {[v for v in im['vs'] if v not in im['lib_after']][:3]}")
+                fails = True
         if im["exit"] != (1 if im["vs"] else 0):
             problems.append(f"exit {im['exit']} with {len(im['vs'])} violations")
             fails = True
